@@ -51,7 +51,7 @@ RULE = (
     "alias signature of the variable operand)."
 )
 ASSUMPTIONS = [
-    "all data dyadic; float image data in [0, 1) so that skimage conversions are defined; img_as_* is skipped when a derived operand left [-1, 1]",
+    "all data dyadic; float image data in [0, 1) (one operand in [-2, 2)); img_as_* other than the uint8 target is skipped when an operand left [-1, 1] (skimage refuses it)",
     "guards exclude documented refusals a priori (3-D resize / EMD / superposition, non-scalar superposition, superposition of converted images "
     "(original_dtype != dtype), ill-ordered or partly missing dates in stack, colour conversions OpenCV does not define, cv2 dtypes, reduction / "
     "extrusion of OpticalImage (2-D by construction), negative or unequal masses in EMD, odd extents for halving)",
@@ -96,7 +96,7 @@ def _data(shape, dtype=float, rot=0):
     return a.reshape(shape).astype(dtype)
 
 
-IMG_NAMES_QUICK = ["S2", "S2b", "LO", "SI", "U8", "V2", "O8", "OB", "OF", "OH", "T2", "TD", "D1", "S3", "ODD"]
+IMG_NAMES_QUICK = ["S2", "S2b", "LO", "SI", "U8", "V2", "O8", "OB", "OF", "OH", "T2", "TD", "D1", "S3", "ODD", "WIDE"]
 IMG_NAMES_THOROUGH = IMG_NAMES_QUICK + ["TV", "S3b", "SD", "U16"]
 ARR_NAMES = ["ARR", "ARRT", "ARR8"]
 
@@ -125,6 +125,8 @@ def make_pool(tier):
     p["S3"] = darsia.Image(_data((2, 4, 4), rot=8), scalar=True, space_dim=3, dimensions=[1.0, 2.0, 2.0], origin=[3.0, -2.0, 5.0], name="S3")
     # odd extents on both axes (branches taken only for odd extents, e.g. coarsening)
     p["ODD"] = darsia.Image(_data((3, 5), rot=5), scalar=True, name="ODD", dimensions=[1.5, 2.5], origin=[3.0, -2.0])
+    # float data reaching outside [-1, 1] (physical data rather than intensities)
+    p["WIDE"] = darsia.Image(4.0 * _data((4, 4), rot=3) - 2.0, scalar=True, name="WIDE", **g2())
     if tier == "thorough":
         p["TV"] = darsia.Image(_data((4, 4, 2, 2), rot=9), scalar=False, series=True, time=[1.0, 3.0], name="TV", **g2())
         p["S3b"] = darsia.Image(_data((2, 4, 4), rot=10)[::-1].copy(), scalar=True, space_dim=3, dimensions=[1.0, 2.0, 2.0], origin=[3.0, -2.0, 5.0], name="S3b")
@@ -451,7 +453,7 @@ def _arith2(name, pyop):
 _arith2("add", lambda a, b: a + b)
 _arith2("sub", lambda a, b: a - b)
 
-for _nm, _s in (("float", 2.5), ("int", 2), ("npfloat64", np.float64(0.5))):
+for _nm, _s in (("float", 2.5), ("int", 2), ("npfloat64", np.float64(0.5)), ("bigint", 300), ("negint", -3)):
 
     def _mk(_nm=_nm, _s=_s):
         @op(f"mul/{_nm}", arith=True, group=f"mul-{_nm}")
@@ -526,7 +528,7 @@ for _nm, _t in (("pyfloat", float), ("float32", np.float32), ("float64", np.floa
         def _a(c, x):
             k = feat(x)
             need(k.dt in ("uint8", "uint16", "float32", "float64", "bool"))
-            if _floaty(k):
+            if _floaty(k) and _t is not np.uint8:  # the uint8 target clips floats to [-1, 1] itself
                 need(float(np.max(np.abs(x.img))) <= 1.0 if x.img.size else True)
             return c.use(x, "self").img_as(_t)
 
